@@ -1,4 +1,4 @@
-import Props.SlicesGen
+import Props.GenFetcher
 open Model.SlicesGen
 #print axioms updateClock_eq
 #print axioms addNextEntry_eq
